@@ -352,9 +352,9 @@ func (g *qgen) join(a, b *table) *query {
 	var on string
 	// an equality between columns of the same kind, else between the ids
 	var pairs [][2]int
-	for i := 1; i < len(a.cols); i++ {
-		for j := 1; j < len(b.cols); j++ {
-			if a.cols[i].k == b.cols[j].k {
+	for i := 0; i < len(a.cols); i++ {
+		for j := 0; j < len(b.cols); j++ {
+			if a.cols[i].k == b.cols[j].k && (i > 0) == (j > 0) {
 				pairs = append(pairs, [2]int{i, j})
 			}
 		}
